@@ -75,6 +75,8 @@ def _minmax(is_min):
 
 
 def round_(x, nd=None):
+    if hasattr(x, "__symround__"):
+        return x.__symround__(nd)
     if isinstance(x, SInt):
         return x
     if isinstance(x, SReal):
